@@ -24,6 +24,7 @@ type AScenario struct {
 	RateUs   int    `json:"rate_us"`
 	RateNs   int    `json:"rate_ns,omitempty"` // when > 0: overrides RateUs (very small rates)
 	Pre      bool   `json:"pre"`
+	DLTicks  int    `json:"dl_ticks,omitempty"` // when > 0: the context has a deadline that falls half a tick after that many ticks
 	Receiver []AOp  `json:"receiver"`
 	Cancel   []AOp  `json:"cancel"`
 	Profile  string `json:"profile"`
@@ -33,6 +34,16 @@ func genAttemptScenario(rng *rand.Rand, profile, mode string) any {
 	if profile == "ts" {
 		// timestamps: a prompt receiver draining the whole channel, at very small rates
 		sc := &AScenario{Profile: profile, Count: 2 + rng.Intn(4), RateNs: []int{1, 10, 100, 1000, 10000}[rng.Intn(5)]}
+		for i := 0; i <= sc.Count; i++ {
+			sc.Receiver = append(sc.Receiver, AOp{K: "recv"})
+		}
+		return sc
+	}
+	if mode != "c" && rng.Intn(10) == 0 {
+		// a context that ends by its deadline, between two ticks of a slow rate, with a prompt receiver: the channel is
+		// closed when the context is done, not earlier (free-running only: real time)
+		sc := &AScenario{Profile: profile, Count: 3 + rng.Intn(3), RateUs: 20000}
+		sc.DLTicks = 1 + rng.Intn(sc.Count-2) // (the first value is there at once: count values take count-1 ticks)
 		for i := 0; i <= sc.Count; i++ {
 			sc.Receiver = append(sc.Receiver, AOp{K: "recv"})
 		}
@@ -76,13 +87,15 @@ func runAttemptExec(execID int, sci any, e *Env) []rec.Ev {
 			defer c2()
 		}
 	}
-	e.R.Add(rec.Ev{"ev": "reset", "exec": execID, "mode": e.Mode, "count": sc.Count, "pre": sc.Pre})
+	e.R.Add(rec.Ev{"ev": "reset", "exec": execID, "mode": e.Mode, "count": sc.Count, "pre": sc.Pre, "dl": sc.DLTicks > 0})
 	var ch <-chan time.Time
 	var last time.Time
+	dlCancel := context.CancelFunc(func() {})
+	defer func() { dlCancel() }()
 	recvOne := func() (closed bool) {
 		t, ok := <-ch
 		if !ok {
-			e.R.Add(rec.Ev{"ev": "closed"})
+			e.R.Add(rec.Ev{"ev": "closed", "done": ctx.Err() != nil})
 			return true
 		}
 		e.R.Add(rec.Ev{"ev": "got", "tsok": !t.Before(last)})
@@ -93,12 +106,16 @@ func runAttemptExec(execID int, sci any, e *Env) []rec.Ev {
 	if e.Mode != "c" {
 		// free-running: the producer ticks for ever when nobody receives; "nothing new for a while" ends a phase
 		lastLen, lastChange := 0, time.Now()
+		idle := 3 * time.Millisecond
+		if sc.DLTicks > 0 {
+			idle = 50 * time.Millisecond // more than two ticks of the slow rate used with deadlines
+		}
 		e.FreeIdle = func() bool {
 			if n := e.R.Len(); n != lastLen {
 				lastLen, lastChange = n, time.Now()
 				return false
 			}
-			return time.Since(lastChange) > 3*time.Millisecond
+			return time.Since(lastChange) > idle
 		}
 	}
 	e.Spawn("S", func(g string) {
@@ -106,6 +123,9 @@ func runAttemptExec(execID int, sci any, e *Env) []rec.Ev {
 		rate := time.Duration(sc.RateUs) * time.Microsecond
 		if sc.RateNs > 0 {
 			rate = time.Duration(sc.RateNs)
+		}
+		if sc.DLTicks > 0 {
+			ctx, dlCancel = context.WithDeadline(ctx, time.Now().Add(rate*time.Duration(sc.DLTicks)+rate/2))
 		}
 		p := safeCall(func() { ch = bigbuff.LinearAttempt(ctx, rate, sc.Count) })
 		buffered := -1
@@ -129,7 +149,9 @@ func runAttemptExec(execID int, sci any, e *Env) []rec.Ev {
 				select {
 				case t, ok := <-ch:
 					if !ok {
-						e.R.Add(rec.Ev{"ev": "closed"})
+						// (the context's state is read after the close was seen: done then means done before, or
+						// within the time it took to look)
+						e.R.Add(rec.Ev{"ev": "closed", "done": ctx.Err() != nil})
 						return
 					}
 					e.R.Add(rec.Ev{"ev": "got", "tsok": !t.Before(last)})
